@@ -17,7 +17,8 @@ class Contract:
                  loops=None, inline=(), theories=(), refines=None, modifies=(), yields=None, decreases=None,
                  props=(), eq_on_ref=None, setter=False, joins=None, closure_of=None, free=None, trusted=False, note='',
                  exc_ensures=None, ghost_out=None, fresh_result=False, globals_=None, replay=None, lists=None, yield_acc=None, yield_ensures=None,
-                 raises_ensures=None, call_keys=None, frame_assumed=None):
+                 raises_ensures=None, call_keys=None, frame_assumed=None,
+                 frame_prune=None, frame_dispatch=None):
         self.qual = qual
         self.kind = kind              # function | method | property | generator
         self.params = dict(params or {})
@@ -43,6 +44,8 @@ class Contract:
         self.exc_ensures = dict(exc_ensures or {})
         self.fresh_result = fresh_result
         self.globals_ = dict(globals_ or {})
+        self.frame_dispatch = dict(frame_dispatch or {})   # method name -> the implementations `self.<name>` can reach (static class of self)
+        self.frame_prune = dict(frame_prune or {})       # callee name -> reason: calls the frame check does not follow
         self.frame_assumed = dict(frame_assumed or {})   # attribute -> reason: writes the frame check does not count (assumption)
         self.lists = ('*' if lists == '*' else list(lists)) if lists is not None else None   # list objects a call may change (frame for all others)
         self.yield_acc = dict(yield_acc or {})      # ghost integer accumulators: name -> expression over the yielded value y
